@@ -553,6 +553,17 @@ fn restore_contents<S: Open>(
         }
     }
 
+    // Files which exist before the restore can hold arbitrary data where the snapshot has zeros;
+    // only for newly created files, the holes left by sparse restore are guaranteed to read as zeros.
+    let pre_existing: &Vec<bool> = &filenames
+        .iter()
+        .map(|path| {
+            dest.path(path)
+                .symlink_metadata()
+                .is_ok_and(|meta| meta.is_file())
+        })
+        .collect();
+
     let sizes = &Mutex::new(file_lengths);
 
     let p = repo.progress_bytes("restoring file contents...");
@@ -659,7 +670,7 @@ fn restore_contents<S: Open>(
                                     sizes_guard[file_idx] = 0;
                                 }
                                 drop(sizes_guard);
-                                if !is_sparse {
+                                if !is_sparse || pre_existing[file_idx] {
                                     dest.write_at(path, start, &data).unwrap();
                                 }
                                 p.inc(size);
